@@ -694,6 +694,35 @@ def charrange(ctx):
                 else:
                     hi = ("%s+%s" % (lo[0], t), lo[1] + c, "rel")
         fills.append((nb, lo, hi, names_))
+    # other spellings of the same fill: a slice `table[a..b]` (then fill / iter_mut), or a loop
+    # `for c in a..b { table[c] = .. }`
+    for b, t in fa.calls():
+        nm = {strip_generics(x).rsplit("::", 1)[-1] for x in callee_paths(t)}
+        if not (nm & {"index_mut"}) or len(t["args"]) != 2:
+            continue
+        pl = op_place(t["args"][0])
+        if pl is None or "CharInfo" not in fa.fn.locals[pl["l"]]["ty"]:
+            continue
+        idx = S.operand(t["args"][1])
+        if idx[0] == "agg" and (idx[1].endswith("ops::Range") or idx[1].endswith("Range::Range")):
+            fills.append((b, _lin(idx[2]["start"]), _lin(idx[2]["end"]) + ("abs",), ["slice"]))
+        elif idx[0] == "ap" and idx[1].root[0] == "call":
+            # element of a range iterator: find the Range aggregate it iterates
+            o = fa.origin(t["args"][1])
+            cur = None
+            if o[0] == "place" and o[1].root[0] == "call":
+                cur = fa.term(o[1].root[1])["args"][0]
+            for _ in range(8):
+                if cur is None:
+                    break
+                oo = fa.origin(cur)
+                if oo[0] == "call" and oo[2]["args"]:
+                    cur = oo[2]["args"][0]
+                    continue
+                if oo[0] == "rv" and oo[1]["k"] == "agg" and str(oo[1].get("adt", "")).endswith("ops::Range"):
+                    lo_e, hi_e = S.operand(oo[1]["ops"][0]), S.operand(oo[1]["ops"][1])
+                    fills.append((b, _lin(lo_e), _lin(hi_e) + ("abs",), ["for-range"]))
+                break
     ctx.floor("CHARRANGE", "range fills of the character table", len(fills), 1)
     for k, (nb, lo, hi, names_) in enumerate(fills):
         oklo = lo[0].endswith(".start") and lo[1] == 0
